@@ -291,4 +291,134 @@ example : metricHook 1 true (.ok ()) = 2 ∧ metricHook 1 false (.ok ()) = 1 ∧
 example : (Conc.run cfg exC0 [.enter exRoot, .finish 0 {}, .enter exChild, .crash, .enter exChild, .finish 0 {}]).m.metric = 2 := by
   decide
 
+/-! ### the stored set stays a valid DAG under every schedule -/
+
+theorem add_ok_graphAdd (c : Cfg) (s : State n) (tx : Tx) (opt : AddOpts) (hp : s.disk.isPresent tx.ref = false)
+    (h : (add c s tx opt).2 = .ok ()) : s.disk.verifyPrevs tx = .ok () ∧ ∃ d, s.disk.graphAdd tx = .ok d := by
+  unfold Nuts.C08.add at h
+  simp only [hp, Bool.false_eq_true, if_false] at h
+  cases hv : s.disk.verifyPrevs tx with
+  | err e => rw [hv] at h; cases h
+  | panic e => rw [hv] at h; cases h
+  | ok u =>
+    cases u
+    refine ⟨rfl, ?_⟩
+    rw [hv] at h
+    cases hg : s.disk.graphAdd tx with
+    | ok d => exact ⟨d, rfl⟩
+    | err e =>
+      exfalso
+      simp only [hg] at h
+      repeat' (split at h)
+      all_goals (first | cases h | simp at h)
+    | panic e =>
+      exfalso
+      simp only [hg] at h
+      repeat' (split at h)
+      all_goals (first | cases h | simp at h)
+
+theorem graphAdd_root {d d' : Disk n} {tx : Tx} (hp : d.isPresent tx.ref = false) (h : d.graphAdd tx = .ok d')
+    (hr : tx.prevs = []) : (getSorted 0 d.clocks).getD [] = [] := by
+  unfold Disk.graphAdd at h
+  simp only [hp, Bool.false_eq_true, if_false, hr, List.isEmpty_nil, Bool.true_and] at h
+  cases he : ((getSorted 0 d.clocks).getD []).isEmpty
+  · rw [he] at h; simp at h
+  · exact List.isEmpty_iff.mp he
+
+
+/-- one root, and roots have clock 0 -/
+structure RootInv (l : List Tx) : Prop where
+  clock0 : ∀ t ∈ l, t.prevs = [] → t.clock = 0
+  one : ∀ t ∈ l, ∀ t' ∈ l, t.prevs = [] → t'.prevs = [] → t = t'
+
+theorem rootInv_add {s : State NB} (h : SInv cfg s) (r : RootInv s.disk.txs) (tx : Tx) (opt : AddOpts) :
+    RootInv (add cfg s tx opt).1.disk.txs := by
+  obtain ⟨_, hE, hO⟩ := h.add cfg_good tx opt
+  by_cases hok : (add cfg s tx opt).2 = .ok ()
+  · rcases hO hok with ⟨he, _⟩ | ⟨ht, hp⟩
+    · rw [he]; exact r
+    · obtain ⟨hv, d, hg⟩ := add_ok_graphAdd cfg s tx opt hp hok
+      have noroot : tx.prevs = [] → ∀ u ∈ s.disk.txs, u.prevs ≠ [] := by
+        intro hr u hu hup
+        have h0 := graphAdd_root hp hg hr
+        rw [h.g.idx 0] at h0
+        have hnil : s.disk.txs.filter (fun t => t.clock == 0) = [] := by simpa using h0
+        have : u ∈ s.disk.txs.filter (fun t => t.clock == 0) := by
+          simp only [List.mem_filter, hu, r.clock0 u hu hup, true_and]; rfl
+        rw [hnil] at this; cases this
+      rw [ht]
+      constructor
+      · intro t hm hpr
+        simp only [List.mem_append, List.mem_singleton] at hm
+        rcases hm with hm | rfl
+        · exact r.clock0 t hm hpr
+        · unfold Disk.verifyPrevs at hv
+          rw [hpr] at hv
+          simp only [Disk.verifyPrevsLoop] at hv
+          by_cases hc : t.clock = 0
+          · exact hc
+          · simp [hc] at hv
+      · intro t hm t' hm' hpr hpr'
+        simp only [List.mem_append, List.mem_singleton] at hm hm'
+        rcases hm with hm | rfl <;> rcases hm' with hm' | rfl
+        · exact r.one t hm t' hm' hpr hpr'
+        · exact absurd hpr (noroot hpr' t hm)
+        · exact absurd hpr' (noroot hpr t' hm')
+        · rfl
+  · rw [hE hok]; exact r
+
+theorem reachable_root {s : State NB} (r : Reachable s) : RootInv s.disk.txs := by
+  induction r with
+  | init => exact ⟨fun _ h => (by cases h), fun _ h => (by cases h)⟩
+  | add tx opt hr ih => exact rootInv_add (reachable_inv hr) ih tx opt
+  | restart _ ih => exact ih
+  | signalIncorrect _ ih => exact ih
+  | signalCorrect _ ih => exact ih
+  | checkPage _ ih => rw [show (checkPage cfg _).disk.txs = _ from checkPageWith_txs cfg _ _]; exact ih
+  | checkPageWith lc _ ih => rw [checkPageWith_txs]; exact ih
+
+theorem creach_root {c : Conc NB} (r : CReach c) : RootInv c.m.s.disk.txs := by
+  induction r with
+  | start hs => exact reachable_root hs
+  | @step c st hc ih =>
+    have inv := creach_inv hc
+    cases st with
+    | enter tx =>
+      show RootInv (c.enter tx).1.m.s.disk.txs
+      unfold Conc.enter
+      cases addRead c.m.s tx <;> exact ih
+    | finish i opt =>
+      show RootInv (c.finish cfg i opt).1.m.s.disk.txs
+      unfold Conc.finish
+      cases hi : c.pending[i]? with
+      | none => exact ih
+      | some tx =>
+        have hv := inv.pend tx (List.mem_of_getElem? hi)
+        simp only
+        unfold addWrite
+        cases hp : c.m.s.disk.isPresent tx.ref
+        · simp only [Bool.false_eq_true, if_false]
+          rw [← add_of_verified cfg c.m.s tx opt hp hv]
+          exact rootInv_add inv.s ih tx opt
+        · simp only [if_true]
+          cases opt.commitFails <;> exact ih
+    | repair lc =>
+      show RootInv (checkPageWith cfg lc c.m.s).disk.txs
+      rw [checkPageWith_txs]; exact ih
+    | signal => exact ih
+    | crash => exact ih
+
+/-- **Concurrent additions keep the stored set a valid DAG**, whatever the schedule: a ref is stored once, there is at
+    most one root, roots have clock 0, and every other transaction has a stored transaction one clock below -/
+theorem concurrent_adds_keep_dag_valid {c : Conc NB} (r : CReach c) :
+    (c.m.s.disk.txs.map (·.ref)).Nodup ∧
+    (∀ t ∈ c.m.s.disk.txs, ∀ t' ∈ c.m.s.disk.txs, t.prevs = [] → t'.prevs = [] → t = t') ∧
+    (∀ t ∈ c.m.s.disk.txs, t.prevs = [] → t.clock = 0) ∧
+    (∀ t ∈ c.m.s.disk.txs, t.clock ≠ 0 → ∃ t' ∈ c.m.s.disk.txs, t'.clock + 1 = t.clock) :=
+  ⟨(creach_inv r).s.g.nodup, (creach_root r).one, (creach_root r).clock0, (creach_inv r).s.g.closed⟩
+
+/-- two callers with two different roots, both verified before either is stored: one root is stored -/
+example : (Conc.run cfg exC0 [.enter exRoot, .enter { exRoot with ref := 77 }, .finish 1 {}, .finish 0 {}]).m.s.disk.txs.length = 1 := by
+  decide
+
 end Nuts.C08.Props
